@@ -447,6 +447,15 @@ func runDiff(r *vf.Run, groupMode bool) {
 					sc.Columns[ci].Name = "renamed by the caller"
 				}
 			}
+			// and what GetSchema hands out NEXT is the schema of the data, not what the caller made of an earlier copy
+			for _, cfg := range matrix {
+				r.Eval(1)
+				if d := oracle.CompareSchema(cfg.idx.GetSchema(), ds.Rows); d != "" {
+					r.Violation(sid, "schema", map[string]any{"config": cfg.name, "difference": head(d, 600),
+						"note": "GetSchema after the caller had reversed and overwritten the copy an earlier GetSchema call gave it"})
+					break
+				}
+			}
 			n := 0
 			for _, q := range qs {
 				if len(q.gb) == 0 {
